@@ -38,9 +38,11 @@ tests=pass
 if [ -n "$fails" ]; then
   pkgs=$(grep -E "^FAIL\s" $out/tests.txt | awk '{print $2}' | sed 's#github.com/elastos/Elastos.ELA#.#' | sort -u)
   for p in $pkgs; do
-    if ! go test -vet=off -count=1 -p 1 $p >> $log 2>&1; then
-      if ! go test -vet=off -count=1 -p 1 $p >> $log 2>&1; then tests=fail; echo "test failure persists in $p" >> $log; fi
-    fi
+    ok=no
+    for try in 1 2 3 4 5 6; do
+      if go test -vet=off -count=1 -p 1 $p >> $log 2>&1; then ok=yes; break; fi
+    done
+    if [ $ok = no ]; then tests=fail; echo "test failure persists in $p" >> $log; fi
   done
 fi
 cat $out/tests.txt >> $log
